@@ -127,8 +127,7 @@ Proof.
   rewrite HR, HS in H. apply orb_true_iff in H. destruct H as [H|H].
   - apply existsb_exists in H. destruct H as ([s p] & Hin & H). cbn [fst snd] in H.
     apply andb_true_iff in H. destruct H as [H1 H2]. apply mem_str_In in H1. apply negb_true_iff in H2.
-    assert (Hp : In p (pops i)) by (apply In_tl; exact H1).
-    specialize (HA s p Hin Hp). apply mem_str_In in HA. congruence.
+    specialize (HA s p Hin H1). apply mem_str_In in HA. congruence.
   - apply existsb_exists in H. destruct H as (p & Hp & H). apply negb_true_iff in H.
     destruct (HB p Hp) as (s & Hs). assert (X : existsb (fun r : str * str => str_eqb (snd r) p) rows = true).
     { apply has_pop_spec. eauto. }
